@@ -100,4 +100,23 @@ example : Impl.run env0 20 (.seq [.PUSH .int (.num .int 3), .PUSH .nat (.num .na
     = .ok [.unit, .pair (.num .nat 2) (.num .int 3)] :=
   run_ok env0 20 _ [] _ (by simp [Spec.eval, Spec.evalSeq, Spec.step, Spec.pairN, Spec.unpairN, Res.bind])
 
+-- arithmetic: Euclidean division with a negative dividend and divisor (`-7 = 3 * (-3) + 2`), division by zero,
+-- two's complement AND of a negative int with a nat, shifts at the bound, SUB_MUTEZ underflow
+example : Spec.eval true env0 20 (.seq [.PUSH .int (.num .int (-3)), .PUSH .int (.num .int (-7)), .EDIV]) []
+    = .ok [.some (.pair (.num .int 3) (.num .nat 2))] := by
+  simp [Spec.eval, Spec.evalSeq, Spec.step, Spec.edivV, Spec.edivTy, Spec.numOk, Res.bind]
+example : Spec.eval true env0 20 (.seq [.PUSH .nat (.num .nat 0), .PUSH .mutez (.num .mutez 5), .EDIV]) []
+    = .ok [.none (.pair .mutez .mutez)] := by
+  simp [Spec.eval, Spec.evalSeq, Spec.step, Spec.edivV, Spec.edivTy, Res.bind]
+example : Spec.eval true env0 20 (.seq [.PUSH .nat (.num .nat 13), .PUSH .int (.num .int (-3)), .AND]) [] = .ok [.num .nat 13] := by
+  simp [Spec.eval, Spec.evalSeq, Spec.step, Spec.andV, Res.bind]; decide
+example : Spec.eval true env0 20 (.seq [.PUSH .nat (.num .nat 256), .PUSH .nat (.num .nat 1), .LSL, .PUSH .nat (.num .nat 256), .SWAP, .LSR]) []
+    = .ok [.num .nat 1] := by
+  simp [Spec.eval, Spec.evalSeq, Spec.step, Spec.lslV, Spec.lsrV, Spec.numOk, Res.bind]
+example : Spec.eval true env0 20 (.seq [.PUSH .mutez (.num .mutez 2), .PUSH .mutez (.num .mutez 1), .SUB_MUTEZ]) [] = .ok [.none .mutez] := by
+  simp [Spec.eval, Spec.evalSeq, Spec.step, Spec.subMutezV, Res.bind]
+example : Impl.run env0 20 (.seq [.PUSH .int (.num .int (-3)), .PUSH .int (.num .int (-7)), .EDIV]) []
+    = .ok [.some (.pair (.num .int 3) (.num .nat 2))] :=
+  run_ok env0 20 _ [] _ (by simp [Spec.eval, Spec.evalSeq, Spec.step, Spec.edivV, Spec.edivTy, Spec.numOk, Res.bind])
+
 end C01
